@@ -1026,7 +1026,7 @@ def fault_population():
     return {"msgs": msgs, "tmp": []}
 
 
-def run_fault_session(r, cmds, fault, stats):
+def run_fault_session(r, cmds, fault, stats, gold_out=None):
     """One pop3d session with at most one failing system call. Judged by the clauses that hold whatever fails: only messages marked
     with DELE in a session that reached QUIT may disappear; nothing else in the maildir changes except new/x -> cur/x:2,; a RETR answered
     +OK and terminated is the exact wire form of that message. Returns (violation | None, trace events)."""
@@ -1044,7 +1044,7 @@ def run_fault_session(r, cmds, fault, stats):
     ev = sandbox.parse_trace(extra["VSHIM_TRACE"]) if os.path.exists(extra["VSHIM_TRACE"]) else []
     if rc is None or not ev:
         stats.inconclusive += 1
-        return None, ev
+        return None, ev, out
     after = snapshot(r.md)
     vis, _ = visible_sorted(sc)
     # a failing stat()/opendir()/readdir() makes the server overlook a message, so its numbering differs from the reference numbering:
@@ -1076,7 +1076,7 @@ def run_fault_session(r, cmds, fault, stats):
                 if renumber and body in [wire(vlib.unjson(m["content"])) for m in sc["msgs"]]:
                     pass                # a message whose stat()/directory read failed is not listed: the numbers shift, the texts stay exact
                 elif body != want:
-                    return "RETR %s answered +OK and terminated, but the text is not the stored message (%d bytes, expected %d)" % (arg, len(body), len(want)), ev
+                    return "RETR %s answered +OK and terminated, but the text is not the stored message (%d bytes, expected %d)" % (arg, len(body), len(want)), ev, out
         else:
             pos = nl + 1
         if verb == "DELE" and status.startswith(b"+OK"):
@@ -1088,6 +1088,13 @@ def run_fault_session(r, cmds, fault, stats):
             marked = set(pending)
     stats.case(scenario={"cmds": cmds, "fault": fault}, nontrivial=bool(fault) and any(e["a"] and e["a"][-1] == "FAULT" for e in ev),
                classes=["fault_session"] + (["fault_session_%s" % fault["cls"]] if fault else ["fault_session_golden"]))
+    if gold_out is not None:
+        # the failing call was the SECOND stat() of a message at start-up (the one that only fetches the size): the message stays listed
+        # (with whatever size), nothing is renumbered, and every later command is answered as in the fault-free session
+        norm = lambda b: re.sub(rb"(?m)^(\+OK )?(\d+) \d+\r$", rb"\1\2 <size>\r", b)
+        if norm(out) != norm(gold_out):
+            i = next((j for j in range(min(len(out), len(gold_out))) if out[j] != gold_out[j]), min(len(out), len(gold_out)))
+            return "a failing size lookup of one message at start-up changed the session beyond that message's size: replies differ from the fault-free session at byte %d: %r vs %r" % (i, out[max(0, i - 30):i + 50], gold_out[max(0, i - 30):i + 50]), ev, out
     sent_marks = set()
     for c in cmds:
         verb, _, arg = c.partition(" ")
@@ -1107,35 +1114,36 @@ def run_fault_session(r, cmds, fault, stats):
             gone = [x for x in sc["msgs"] if x["name"] not in names_after]
             if "QUIT" in cmds and len(gone) <= len(sent_marks):
                 continue
-            return "%d messages are gone although only %d DELE%s sent" % (len(gone), len(sent_marks) if "QUIT" in cmds else 0, " + QUIT were" if "QUIT" in cmds else "s were sent and QUIT was not"), ev
+            return "%d messages are gone although only %d DELE%s sent" % (len(gone), len(sent_marks) if "QUIT" in cmds else 0, " + QUIT were" if "QUIT" in cmds else "s were sent and QUIT was not"), ev, out
         if base not in names_after:
             # the failing call may be the very write that carries a reply, so what the client SENT decides: a message may disappear only
             # if DELE for it was sent (and no RSET after it) and QUIT was sent
             if i in sent_marks and "QUIT" in cmds:
                 continue
             why = "no DELE was sent for it" if i not in sent_marks else "QUIT was never sent"
-            return "message %d (%s) is gone although %s" % (i + 1, msg_rel(m), why), ev
+            return "message %d (%s) is gone although %s" % (i + 1, msg_rel(m), why), ev, out
         k, v = names_after[base]
         if v != vlib.unjson(m["content"]):
             return "message %s changed its contents" % k, ev
         if k != msg_rel(m) and not (m["dir"] == "new" and k == "cur/%s:2," % base):
-            return "message %s was renamed to %s (only new/x -> cur/x:2, is documented)" % (msg_rel(m), k), ev
+            return "message %s was renamed to %s (only new/x -> cur/x:2, is documented)" % (msg_rel(m), k), ev, out
     extra_files = [k for k in after if k.partition("/")[2].split(":")[0] not in {m["name"] for m in sc["msgs"]}]
     if extra_files:
-        return "files appeared in the maildir: %r" % extra_files[:4], ev
-    return None, ev
+        return "files appeared in the maildir: %r" % extra_files[:4], ev, out
+    return None, ev, out
 
 
 def fault_worker(job):
     tree, wid, plans = job
     stats = vlib.Stats()
     r = Runner(tree, "f%s" % wid)
-    for cmds, fault in plans:
-        v, _ = run_fault_session(r, cmds, fault, stats)
+    for cmds, fault, gold in plans:
+        v = run_fault_session(r, cmds, fault, stats, gold)[0]
         if v:
-            v2 = [run_fault_session(r, cmds, fault, vlib.Stats())[0] for _ in range(2)]
+            v2 = [run_fault_session(r, cmds, fault, vlib.Stats(), gold)[0] for _ in range(2)]
             if all(v2):
-                stats.violations.append(("single failing system call (%s): %s" % (json.dumps(fault), v), {"part": "fault", "cmds": cmds, "fault": fault}))
+                stats.violations.append(("single failing system call (%s): %s" % (json.dumps(fault), v),
+                                         {"part": "fault", "cmds": cmds, "fault": fault, "gold": vlib.jsonable(gold) if gold is not None else None}))
                 break
             stats.inconclusive += 1
     return stats
@@ -1147,18 +1155,23 @@ def fault_part(ctx, tree):
     r = Runner(tree, "fgold")
     plans = []
     for cmds in FAULT_SESSIONS:
-        v, ev = run_fault_session(r, cmds, None, ctx.stats)
+        v, ev, gold_out = run_fault_session(r, cmds, None, ctx.stats)
         if v:
             ctx.stats.violations.append(("fault-free reference session: " + v, {"part": "fault", "cmds": cmds, "fault": None}))
             return
         seen = set()
+        statted = set()
         for cls, k, e in sandbox.fault_sites(ev):
+            second_stat = False
+            if cls == "stat" and e["a"]:
+                second_stat = e["a"][0] in statted and e["a"][0].startswith(("new/", "cur/"))
+                statted.add(e["a"][0])
             if cls in ("close", "lseek", "chdir", "pipe", "fork", "flock", "pwrite", "fsync", "ftruncate", "link", "mkdir", "utimes") or (cls, k) in seen:
                 continue
             seen.add((cls, k))
             for er in {"open": ["13", "23"], "read": ["5"], "write": ["5", "32"], "stat": ["5"], "fstat": ["5"], "rename": ["5", "13"], "unlink": ["5", "13"],
                        "opendir": ["23"], "readdir": ["5"]}.get(cls, ["5"]):
-                plans.append((cmds, {"cls": cls, "k": k, "err": er}))
+                plans.append((cmds, {"cls": cls, "k": k, "err": er}, gold_out if second_stat else None))
     nw = vlib.NCPU
     ctx.stats.merge(vlib.run_workers(fault_worker, [(tree, i, plans[i::nw]) for i in range(nw) if plans[i::nw]]))
     ctx.notes["fault_sessions"] = {"sessions": len(FAULT_SESSIONS), "single_fault_runs": len(plans)}
@@ -1191,7 +1204,8 @@ def replay(ctx, path):
     sc = sc.get("scenario", sc)
     r = Runner(tree, "replay")
     if isinstance(sc, dict) and sc.get("part") == "fault":
-        out = [run_fault_session(r, sc["cmds"], sc["fault"], ctx.stats)[0] for _ in range(3)]
+        gold = vlib.unjson(sc["gold"]) if sc.get("gold") is not None else None
+        out = [run_fault_session(r, sc["cmds"], sc["fault"], ctx.stats, gold)[0] for _ in range(3)]
         return [out[0]] if all(out) else []
     v = r.run(sc, ctx.stats)
     return [v] if v else []
